@@ -19,7 +19,7 @@ def main():
         if a.startswith("--also="):
             also = a.split("=", 1)[1].split(",")
     assert sh("git -C /repo status --porcelain")[1].strip() == "", "/repo is not clean"
-    for d in sorted(SEEDED.glob("C??-m?")):
+    for d in sorted(SEEDED.glob("C??-m*")):
         if args and d.name not in args and d.name.split("-")[0] not in args:
             continue
         meta = json.loads((d / "meta.json").read_text())
